@@ -26,7 +26,7 @@ ASSUMPTIONS = [
     'peers are correct-but-slow/lossy: they never forge replies',
 ]
 BUDGET = {
-    'quick': {'examples': 500, 'seconds': 75},
+    'quick': {'examples': 1200, 'seconds': 75},
     'thorough': {'examples': 4000, 'shards': 16},
 }
 
